@@ -116,7 +116,8 @@ static void * script(void * a) {
       if (r->reads != 0) mt_fail("nanosleep with a malformed duration read the clock %ld times", r->reads);
       st_bad++; break; }
     case K_HOLD:
-      myth_mutex_lock(&Z.m); logev(me, E_ENTER); logev(me, E_OK); wit_enter(&Z.w, "hold");
+      logev(me, E_ENTER);   /* before the call: the possibly-holding interval must contain the whole acquisition (free-running cases) */
+      Z0(myth_mutex_lock(&Z.m)); logev(me, E_OK); wit_enter(&Z.w, "hold");
       do_yields(o->k);
       wit_leave(&Z.w, "hold"); Z0(myth_mutex_unlock(&Z.m)); logev(me, E_UNL);
       break;
